@@ -598,6 +598,158 @@ def emit_rule(ctx, P):
         ctx.check(r, ok, key(f, "twin-args"), f.where(f.root), "%s measures and writes different strings" % name)
 
 
+# -------------------------------------------------------------------------------- discarded status
+STATUS_EXEMPT = {("set_logfile", "decoder_set_logfile"): "a log file that cannot be opened is reported by the callee; initialisation goes on without it by design"}
+
+
+def status_rule(ctx, P):
+    r = ctx.rule("ERRD.status", "the result of a function that reports failure through its integer result (it has both a `return 0` and a negative return) is not discarded: a call whose value is unused lets a refused configuration / input go on as if accepted", floor=60)
+    status = {}
+    for f in P.repo_functions():
+        if unit_of(f) in GENERATED or f.d.get("ret") not in ("int", "int32", "int32_t", "long"):
+            continue
+        neg = zero = False
+        for rt in f.find("Return"):
+            if f.ch(rt):
+                v = f.constval(f.ch(rt)[0])
+                neg = neg or (v is not None and v < 0)
+                zero = zero or v == 0
+        if neg and zero:
+            status[f.name] = f
+    for f in P.repo_functions():
+        if unit_of(f) in GENERATED:
+            continue
+        for c in f.calls():
+            cal = f.nodes[c].get("callee")
+            if cal not in status:
+                continue
+            ctx.touch(f)
+            p_ = f.parent[c]
+            while p_ is not None and f.k(p_) == "Paren":
+                p_ = f.parent[p_]
+            discarded = False
+            if p_ is not None and f.k(p_) in ("Compound", "Case", "Default", "Label"):
+                discarded = True
+            elif p_ is not None and f.k(p_) in ("If", "While", "For", "Do"):
+                cnd = f.ch(p_)[1] if f.k(p_) == "For" else (f.ch(p_)[0] if f.k(p_) != "Do" else f.ch(p_)[-1])
+                discarded = c not in set(f.walk(cnd))
+            n = sum(1 for c2 in f.calls(cal) if c2 <= c)
+            if discarded and (f.name, cal) in STATUS_EXEMPT:
+                ctx.ok(r, key(f, "%s#%d" % (cal, n)), f.where(c), "exempt: " + STATUS_EXEMPT[(f.name, cal)])
+                continue
+            ctx.check(r, not discarded, key(f, "%s#%d" % (cal, n)), f.where(c), "the result of %s, which reports failure by a negative value, is discarded" % cal)
+
+
+# -------------------------------------------------------------------------------- configuration numbers
+def config_rule(ctx, P):
+    r = ctx.rule("CONFIG.range", "an integer taken from the configuration that is used as a divisor, an allocation size or a loop bound (in the storing function or, through the field it is stored in, anywhere) is range-tested in the function that reads it: every path from the read to a success return passes a lower-bound test (failing edge leaves) or an assignment of a valid value", floor=5)
+    allf = [f for f in P.repo_functions() if unit_of(f) not in GENERATED]
+    # sinks by field name: divisor / allocation size / loop bound
+    fsinks = {}
+    for f in allf:
+        for i in f.walk():
+            nd = f.nodes[i]
+            tgt = []
+            if nd["k"] in ("Bin", "CompoundAssign") and nd["op"] in ("/", "%", "/=", "%=") and not c18_float(f, nd):
+                tgt.append((nd["ch"][1], "a divisor"))
+            if nd["k"] == "Call" and nd.get("callee") in c17.ALLOCS:
+                for ai in c17.ALLOCS[nd["callee"]]:
+                    if ai < len(f.args(i)):
+                        tgt.append((f.args(i)[ai], "an allocation size"))
+            if nd["k"] == "For" and f.k(nd["ch"][1]) != "Absent":
+                q = paths.rel(f, nd["ch"][1], True, subst=False)
+                if q and q[1] in ("<", "<="):
+                    cj = f.strip(nd["ch"][1])
+                    tgt.append((f.ch(cj)[1] if f.canon(f.ch(cj)[0], subst=False) == q[0] else f.ch(cj)[0], "a loop bound"))
+            for (t, what) in tgt:
+                for x in f.walk(t):
+                    if f.k(x) == "Member":
+                        fsinks.setdefault((f.nodes[x].get("rec"), f.nodes[x]["field"]), []).append((f, i, what))
+    for f in allf:
+        for c in f.calls("config_int"):
+            p_ = f.up(c)
+            while p_ is not None and f.k(p_) in ("Paren", "ICast", "Cast"):
+                p_ = f.parent[p_]
+            if p_ is None or f.k(p_) not in ("Assign", "Var"):
+                continue
+            kname = f.strip(f.args(c)[1])
+            kname = str(f.nodes[kname].get("v")) if f.k(kname) == "Str" else f.src(kname)
+            if f.k(p_) == "Assign":
+                lhs = f.strip(f.ch(p_)[0])
+                x = f.canon(lhs, subst=False)
+            else:
+                lhs = None
+                x = f.nodes[p_]["name"]
+            sinks = []
+            if lhs is not None and f.k(lhs) == "Member":
+                sinks = [(g, i, w) for (g, i, w) in fsinks.get((f.nodes[lhs].get("rec"), f.nodes[lhs]["field"]), [])]
+            # a local that is copied into a field: the field's uses count as well
+            if lhs is None or f.k(lhs) != "Member":
+                for st in paths.stores(f):
+                    if st["kind"] == "Member" and st["op"] == "=" and st["rhs"] is not None and f.canon(st["rhs"], subst=False) == x:
+                        sinks += [(g, i, w) for (g, i, w) in fsinks.get((st["rec"], st["field"]), [])]
+            # local uses in the same function
+            for i in f.walk():
+                nd = f.nodes[i]
+                if nd["k"] in ("Bin", "CompoundAssign") and nd["op"] in ("/", "%", "/=", "%=") and not c18_float(f, nd) and x in f.canon(nd["ch"][1], subst=False).replace("(", " ").replace(")", " ").split():
+                    sinks.append((f, i, "a divisor"))
+                if nd["k"] == "Call" and nd.get("callee") in c17.ALLOCS:
+                    for ai in c17.ALLOCS[nd["callee"]]:
+                        if ai < len(f.args(i)) and x in re.findall(r"[\w>.\-]+", f.canon(f.args(i)[ai], subst=False)):
+                            sinks.append((f, i, "an allocation size"))
+            if not sinks:
+                continue
+            ctx.touch(f)
+            need_pos = any(w == "a divisor" for (_g, _i, w) in sinks)
+
+            srccall = f.canon(c, subst=False)
+
+            def lb(fn, cc, pol, x=x, need_pos=need_pos, srccall=srccall):
+                q = paths.rel(fn, cc, pol, subst=False)
+                if q is None:
+                    return False
+                if q[2] in (x, srccall) and q[1] in ("<", "<=") and re.match(r"^-?\d+$", q[0]):
+                    v = int(q[0]) + (1 if q[1] == "<" else 0)
+                    return v >= (1 if need_pos else 0)
+                # bounded below by another quantity of the same set-up (frame size <= FFT size): accepted as a
+                # range test of the value; the other quantity has its own obligation if it is a configuration value
+                if q[2] == x and q[1] in ("<", "<=") and x not in q[0] and not re.match(r"^-?\d+$", q[0]):
+                    return True
+                if need_pos and q[1] == "!=" and {q[0], q[2]} == {x, "0"}:
+                    return False        # non-zero alone does not exclude negative sizes; accepted only for pure divisors below
+                return False
+            pure_div = all(w == "a divisor" for (_g, _i, w) in sinks)
+
+            def nz(fn, cc, pol, x=x):
+                q = paths.rel(fn, cc, pol, subst=False)
+                return q is not None and q[1] == "!=" and {q[0], q[2]} == {x, "0"}
+            pred = (lambda fn, cc, pol: lb(fn, cc, pol) or nz(fn, cc, pol)) if pure_div else lb
+            redefs = set(st["node"] for st in paths.stores(f) if st["path"] == x and st["op"] == "=" and st["node"] != p_ and st["rhs"] is not None and "config_int" not in f.canon(st["rhs"], subst=False))
+            succ = [rt for rt in f.find("Return") if not f.ch(rt) or not ((f.constval(f.ch(rt)[0]) is not None and f.constval(f.ch(rt)[0]) < 0) or (paths._is_zero(f, f.ch(rt)[0]) and "*" in f.d.get("ret", "")))]
+            edges = set(paths.guard_edges(f, pred))
+            start = c17._elem_of(f, p_)
+            if paths.guarded(f, start, pred):
+                ctx.ok(r, key(f, "%s<-%s" % (x, kname)), f.where(c), "tested before it is stored")
+                continue
+            bad = any(f.cfg.path_exists(paths.pos_of(f, start), lambda e, rt=rt: e == rt, is_barrier=lambda e: e in redefs, removed_edges=edges) for rt in succ) if succ else f.cfg.path_exists(paths.pos_of(f, start), "exit", is_barrier=lambda e: e in redefs, removed_edges=edges)
+            g0, i0, w0 = sinks[0]
+            ctx.check(r, not bad, key(f, "%s<-%s" % (x, kname)), f.where(c), "configuration value \"%s\" is kept in `%s` and used as %s (%s:%d%s) but %s can succeed without having tested it: %s" % (kname, x, w0, g0.relfile().split("/")[-1], g0.line(i0), " and %d more" % (len(sinks) - 1) if len(sinks) > 1 else "", f.name, "a zero value divides by zero" if w0 == "a divisor" else "a zero or negative value is handed to the allocator / the loops"))
+
+
+def c18_float(f, nd):
+    ts = [nd.get("t", "")] + [f.nodes[c].get("t", "") for c in nd["ch"]]
+    tds = f.prog.typedefs
+    for t in ts:
+        t = t.replace("const ", "").strip()
+        k = 0
+        while t in tds and k < 8:
+            t = tds[t]
+            k += 1
+        if t in ("float", "double", "long double"):
+            return True
+    return False
+
+
 def run(ctx):
     P = ctx.P
     own, gen = input_functions(P)
@@ -617,3 +769,5 @@ def run(ctx):
     num_rule(ctx, P)
     growth_rule(ctx, P)
     emit_rule(ctx, P)
+    config_rule(ctx, P)
+    status_rule(ctx, P)
